@@ -14,7 +14,7 @@ pub fn run(tier: Tier, seed: u64) {
         "zkabacus_crypto::states::{State::{new, apply_payment, close_state, to_message}, CloseState::to_message, balances}",
         "everything of zkchannels-crypto reached from there (provers, verifiers, range constraints, blind signing)",
     ]);
-    eng::bound("initial balances and amount sequences from the boundary lattice; histories of <= 1 payment (quick) / <= 2 payments (thorough); every verifier-side comparison must be forced for all random draws");
+    eng::bound("initial balances and amount sequences from the boundary lattice; histories of one payment over the boundary lattice plus the sequences [7,-3,0] and [101 (refused), 5] (quick) / eight more two-payment sequences (thorough); every verifier-side comparison must be forced for all random draws");
     eng::assumption("random draws non-zero; digest canonicity and nonce != close tag follow the shadow stream (they are retry loops, explored in C05/C18)");
     let m = MAX as u64;
     let mut flows: Vec<(u64, u64, Vec<i64>)> = vec![
@@ -29,6 +29,9 @@ pub fn run(tier: Tier, seed: u64) {
         (m, 0, vec![m as i64]),
         (m, 1, vec![1]),
         (0, 0, vec![0]),
+        // sequences: behaviour that differs only on a later operation (after an accepted, a zero or a refused payment)
+        (100, 50, vec![7, -3, 0]),
+        (100, 50, vec![101, 5]),
     ];
     if tier == Tier::Thorough {
         flows.extend(vec![
